@@ -1,5 +1,5 @@
 (* Canonical text of values and outcomes (mirrored by harness/codec.py: render) and the case runners the harness evaluates. *)
-From Symv Require Export Cats.LayoutInst.
+From Symv Require Export Cats.LayoutInst Cats.Sort.
 Open Scope string_scope.
 
 Fixpoint r_value (v : value) : string :=
@@ -38,5 +38,29 @@ Definition case_fac (t : string) (b : bytes) : string :=
   | Ok v => "ok:" ++ r_value v
   | Reject => "reject"
   | Crash k => "crash:" ++ k
+  end.
+Definition m_R : rec_ops := {| enc_t := m_enc; size_t := m_size; dec_t := m_dec; decf_t := m_decf; key_t := key ops_now tm type_fuel |}.
+
+(* sort() of one keyed array member: keys through the declared accessor, then the stable sort *)
+Fixpoint keys_of_values (a : array) (l : list value) : result (list keyv) :=
+  match l with
+  | [] => Ok []
+  | e :: r => bind (elem_key tm m_R a e) (fun k => match k with
+                                                    | Some kv => bind (keys_of_values a r) (fun ks => Ok (kv :: ks))
+                                                    | None => Crash "NoSortKey"
+                                                    end)
+  end.
+Definition case_sort (host member : string) (l : list value) : string :=
+  match lookup_struct tm host with
+  | Some s =>
+    match find_field (s_fields s) member with
+    | Some f =>
+      match f_array f with
+      | Some a => r_outcome (fun ks => r_value (VArr (sort_values ks l))) (keys_of_values a l)
+      | None => "crash:NotAnArray"
+      end
+    | None => "crash:NoMember"
+    end
+  | None => "crash:NoStruct"
   end.
 End Cases.
